@@ -102,11 +102,11 @@ WIN_ENV = {
 }
 TARGETS.append(dict(
     module="pyp0f.net.signatures.tcp", func="TCPPacketSignature.calculate_window_multiplier", file="WindowMultiplier",
-    lean="windowMult", import_="P0f.Model.WMult",
+    lean="windowMult", divok=True, import_="P0f.Model.WMult",
     pyparams=["self"], params=[("p", "WIn")], ret="Tuple:Int,Bool", lean_ret="Int × Bool",
     env=WIN_ENV, list_types={"divs": "List:Tuple:Int,Bool"}, list_elem_hint="Tuple:Int,Bool",
     calls={"WindowMultiplier": tuple_ctor("value", "is_mtu")},
-    alias="def windowMult (p : WIn) : Int × Bool := P0f.windowMult p\n",
+    alias="def windowMult (p : WIn) : Int × Bool := P0f.windowMult p\ndef windowMult_divok (p : WIn) : Bool := true\n",
 ))
 
 # ---------------------------------------------------------------------------------------------- C01
@@ -138,12 +138,13 @@ MATCH_ENV = {
     "packet_signature.window_multiplier.value": ("p.multVal", "Int"),
 }
 TARGETS.append(dict(
-    module="pyp0f.fingerprint.tcp", func="tcp_signatures_match", file="TcpSignaturesMatch", lean="tcpSignaturesMatch",
+    module="pyp0f.fingerprint.tcp", func="tcp_signatures_match", file="TcpSignaturesMatch", lean="tcpSignaturesMatch", divok=True,
     import_="P0f.Model.Match",
     pyparams=["signature", "packet_signature", "options"],
     params=[("s", "Sig"), ("p", "PSig"), ("maxDist", "Int")], ret="Opt:Enum:MatchType", lean_ret="Option MatchType",
     env=MATCH_ENV,
-    alias="def tcpSignaturesMatch (s : Sig) (p : PSig) (maxDist : Int) : Option MatchType := P0f.tcpMatch s p maxDist\n",
+    alias="def tcpSignaturesMatch (s : Sig) (p : PSig) (maxDist : Int) : Option MatchType := P0f.tcpMatch s p maxDist\n"
+          "def tcpSignaturesMatch_divok (s : Sig) (p : PSig) (maxDist : Int) : Bool := true\n",
 ))
 
 # ---------------------------------------------------------------------------------------------- gates
